@@ -180,7 +180,7 @@ class LocationTableEntry:
             self.is_neighbour = False
 
     def update_with_gbc_packet(
-        self, packet: bytes, gbc_extended_header: GBCExtendedHeader
+        self, packet: bytes, gbc_extended_header: GBCExtendedHeader, is_new_entry: bool = True
     ) -> None:
         """
         Updates the entry with a SHB packet.
@@ -208,8 +208,10 @@ class LocationTableEntry:
         self.update_position_vector(position_vector)
         # step 5
         self.update_pdr(position_vector, (len(packet) + 8 + 4))
-        # step 6
-        self.is_neighbour = False
+        # step 6: only a LocTE created by this packet is marked as non-neighbour; a station
+        # already known as direct neighbour (beacon/SHB) stays one until its entry expires
+        if is_new_entry:
+            self.is_neighbour = False
 
     def check_duplicate_sn(self, sn: int) -> None:
         """
@@ -582,10 +584,11 @@ class LocationTable:
         with self.loc_t_lock:
             entry: LocationTableEntry | None = self.get_entry(
                 gbc_extended_header.so_pv.gn_addr)
+            is_new_entry = entry is None
             if entry is None:
                 entry = LocationTableEntry(self.mib)
                 self.loc_t[gbc_extended_header.so_pv.gn_addr] = entry
-        entry.update_with_gbc_packet(packet, gbc_extended_header)
+        entry.update_with_gbc_packet(packet, gbc_extended_header, is_new_entry)
         self.refresh_table()
 
     def get_neighbours(self) -> list[LocationTableEntry]:
